@@ -213,24 +213,16 @@ Definition bi_filter_keys (v : value) : outcome value :=
   | _ => Err EOther
   end.
 
-Definition bi_string_keys (t : mtag) : bool := match t with MIntStr => false | _ => true end.
-
-Fixpoint bi_merge_maps (tag : mtag) (acc : list (value * value)) (args : list value) : option (list (value * value)) :=
+(* merge on a map: the result is a map[string]interface{} under the keys' text forms, whatever the types of the
+   receiver and of the arguments; arguments that are not maps are ignored *)
+Fixpoint bi_merge_maps (acc : list (value * value)) (args : list value) : option (list (value * value)) :=
   match args with
   | [] => Some acc
   | a :: r =>
     match vo_view a with
-    | KMap t kvs =>
-      let ok := match tag, t with
-                | MAny, MIntStr => false
-                | MAny, _ => true
-                | MStrStr, MStrStr | MIntStr, MIntStr | MStrInt, MStrInt => true
-                | _, _ => false
-                end in
-      if ok then bi_merge_maps tag (fold_left (fun m kv => vo_map_set m (fst kv) (snd kv)) kvs acc) r
-      else None
+    | KMap _ kvs => bi_merge_maps (fold_left (fun m kv => vo_map_set m (VStr (vo_key_text (fst kv))) (snd kv)) kvs acc) r
     | KOther => None
-    | _ => bi_merge_maps tag acc r
+    | _ => bi_merge_maps acc r
     end
   end.
 
@@ -239,24 +231,35 @@ Definition bi_filter_merge (v : value) (args : list value) : outcome value :=
   | KList _ xs =>
     if existsb (fun a => match vo_view a with KOther => true | _ => false end) args then Unmodelled
     else Ok (VList LAny (xs ++ flat_map (fun a => match vo_view a with KList _ ys => ys | _ => [] end) args))
-  | KMap tag kvs =>
-    match bi_merge_maps tag kvs args with
-    | Some m => Ok (VMap tag m)
+  | KMap _ kvs =>
+    match bi_merge_maps (fold_left (fun m kv => vo_map_set m (VStr (vo_key_text (fst kv))) (snd kv)) kvs []) args with
+    | Some m => Ok (VMap MAny m)
     | None => Unmodelled
     end
   | KOther => Unmodelled
   | _ => Ok v
   end.
 
+(* a Go array ([n]T) yields a slice of its element type: []interface{} for the arrays of the universe *)
+Definition bi_slice_tag (t : ltag) : ltag := match t with LArray => LAny | _ => t end.
+
 Definition bi_filter_reverse (v : value) : outcome value :=
   match vo_view v with
   | KNull => Ok VNull
   | KStr s => Ok (VStr (concat (rev (u8_chars s))))
-  | KList LArray _ => Unmodelled
-  | KList t xs => Ok (VList t (rev xs))
+  | KList t xs => Ok (VList (bi_slice_tag t) (rev xs))
   | KOther => Unmodelled
   | _ => Err EOther
   end.
+
+(* the numeric value of every element, when all elements are numbers (allNumbers / numberValue) *)
+Definition bi_all_numbers (xs : list value) : option (list (Z * value)) :=
+  vo_opt_list (map (fun x => match vo_view x with
+                             | KInt z | KFloat z => if vo_in_range z then Some (z, x) else None
+                             | _ => None
+                             end) xs).
+Definition bi_only_numbers (xs : list value) : bool :=
+  forallb (fun x => match vo_view x with KInt _ | KFloat _ => true | _ => false end) xs.
 
 Definition bi_filter_sort (v : value) : outcome value :=
   match vo_view v with
@@ -271,18 +274,25 @@ Definition bi_filter_sort (v : value) : outcome value :=
     | Some zs => Ok (VList LAny (map VInt (vo_sort Z.ltb zs)))
     | None => Unmodelled
     end
-  | KList LAny xs =>
+  | KList t xs =>
     match xs with
-    | [] => Ok v
+    | [] => Ok (VList (bi_slice_tag t) [])
     | _ =>
-      match bi_keyed xs with
-      | Some ks =>
-        if (12 <? length xs)%nat && bi_has_tie ks then Unmodelled
-        else Ok (VList LAny (map snd (vo_sort (fun a b => vo_bytes_ltb (fst a) (fst b)) ks)))
-      | None => Unmodelled
-      end
+      if bi_only_numbers xs then
+        (* a list of numbers is ordered by value, stably *)
+        match bi_all_numbers xs with
+        | Some ks => Ok (VList LAny (map snd (vo_sort (fun a b => (fst a <? fst b)%Z) ks)))
+        | None => Unmodelled
+        end
+      else
+        match bi_keyed xs with
+        | Some ks =>
+          (* []interface{} goes through sort.Slice (not stable beyond 12 elements), an array through SliceStable *)
+          if (match t with LAny => true | _ => false end) && (12 <? length xs)%nat && bi_has_tie ks then Unmodelled
+          else Ok (VList LAny (map snd (vo_sort (fun a b => vo_bytes_ltb (fst a) (fst b)) ks)))
+        | None => Unmodelled
+        end
     end
-  | KList LArray _ => Unmodelled
   | KOther => Unmodelled
   | _ => Err EOther
   end.
@@ -319,11 +329,10 @@ Definition bi_filter_slice (v : value) (args : list value) : outcome value :=
             | None => Ok (VStr [])
             | Some (s0, e0) => Ok (VStr (concat (bi_sub cs s0 e0)))
             end
-          | KList LArray _ => Unmodelled
           | KList t xs =>
             match bi_slice_bounds (Z.of_nat (length xs)) start len with
-            | None => Ok (VList t [])
-            | Some (s0, e0) => Ok (VList t (bi_sub xs s0 e0))
+            | None => Ok (VList (bi_slice_tag t) [])
+            | Some (s0, e0) => Ok (VList (bi_slice_tag t) (bi_sub xs s0 e0))
             end
           | KOther => Unmodelled
           | _ => Err EOther
